@@ -250,6 +250,62 @@ theorem revalidate_publish_sound (cfg : GConfig) (cat : GCatalog) (st : GState) 
     PublishEvidence cfg cat st req :=
   (revalidate_publish_evidence cfg cat st req cancelAt _ _ rfl h).1
 
+/-! ## 3b. segment coverage: fragments in neighbouring segments -/
+
+/-- **`traceFragmentCoverage` is exact.** For a segment range with int64 endpoints the coverage is
+    known iff `start < end` and the segment can hold some instant (a degenerate one-instant
+    range is conservatively treated as unknown: no sampling), and then `[covMin, covMax]` is exactly the set of
+    instants it can hold (for the production form `[start, end)`: `covMax = end − 1`). -/
+theorem coverage_exact (r : SegRange) (hz : r.startZero = false ∧ r.endZero = false)
+    (h64 : minI64 ≤ r.start ∧ r.end_ ≤ maxI64) :
+    ((coverageOf r).2.2 = true ↔ (r.start < r.end_ ∧ ∃ ts, r.holds ts)) ∧
+    ((coverageOf r).2.2 = true → ∀ ts, ((coverageOf r).1 ≤ ts ∧ ts ≤ (coverageOf r).2.1) ↔ r.holds ts) := by
+  by_cases hlt : r.start < r.end_
+  · rw [coverageOf_eq r hz h64 hlt]
+    unfold SegRange.holds
+    cases r.inclStart <;> cases r.inclEnd <;>
+      simp only [if_true, if_false, Bool.false_eq_true, decide_eq_true_eq]
+    · refine ⟨⟨fun h => ⟨hlt, r.start + 1, by constructor <;> omega⟩, fun ⟨_, ts, h1, h2⟩ => by omega⟩, fun _ ts => by constructor <;> (rintro ⟨a, b⟩; constructor <;> omega)⟩
+    · refine ⟨⟨fun h => ⟨hlt, r.start + 1, by constructor <;> omega⟩, fun ⟨_, ts, h1, h2⟩ => by omega⟩, fun _ ts => by constructor <;> (rintro ⟨a, b⟩; constructor <;> omega)⟩
+    · refine ⟨⟨fun h => ⟨hlt, r.start, by constructor <;> omega⟩, fun ⟨_, ts, h1, h2⟩ => by omega⟩, fun _ ts => by constructor <;> (rintro ⟨a, b⟩; constructor <;> omega)⟩
+    · refine ⟨⟨fun h => ⟨hlt, r.start, by constructor <;> omega⟩, fun ⟨_, ts, h1, h2⟩ => by omega⟩, fun _ ts => by constructor <;> (rintro ⟨a, b⟩; constructor <;> omega)⟩
+  · have hk : (coverageOf r).2.2 = false := by
+      unfold coverageOf; simp [hlt]
+    rw [hk]
+    exact ⟨⟨fun h => Bool.noConfusion h, fun ⟨h, _⟩ => absurd h hlt⟩, fun h => Bool.noConfusion h⟩
+
+/-- **The session feeds `Resolve` the exact segment.** For the guard session of a table (coverage
+    derived from its segment time range), a Drop is confirmed only if the grace-widened bounds of the
+    trace contain only instants the segment itself can hold - so no fragment of the trace may live in a
+    neighbouring segment within grace. -/
+theorem session_drop_inside_segment (mc : FilterOracle) (t : Table) (sel : List Part) (cfg : GConfig) (cat : GCatalog)
+    (hgs : guardSession mc t sel = some (cfg, cat)) (h64 : minI64 ≤ t.segMin ∧ t.segMax ≤ maxI64)
+    (st : GState) (tr : GTrace) (ca : Option Nat)
+    (hdrop : (resolve cfg cat st tr .drop ca).1.action = .drop) :
+    ∃ tmin tmax, traceBounds tr.blocks = some (tmin, tmax) ∧
+      ∀ ts, satSub tmin t.grace ≤ ts → ts ≤ satAdd tmax t.grace → t.segRange.holds ts := by
+  obtain ⟨tmin, tmax, ev, _⟩ := resolve_drop_sound cfg cat st tr .drop ca hdrop
+  unfold guardSession at hgs
+  simp only at hgs
+  split at hgs
+  · cases hgs
+  · rename_i hc
+    simp only [Option.some.injEq, Prod.mk.injEq] at hgs
+    obtain ⟨rfl, rfl⟩ := hgs
+    simp only [Bool.or_eq_true, not_or, Bool.not_eq_true, Bool.not_eq_false'] at hc
+    have hknown := hc.1.1.2
+    obtain ⟨_, hex⟩ := coverage_exact t.segRange ⟨rfl, rfl⟩ h64
+    have hcov := ev.coverage
+    simp only at hcov
+    have hin := hex hknown
+    exact ⟨tmin, tmax, ev.bounds, fun ts h1 h2 => (hin ts).mp ⟨Int.le_trans hcov.2.1 h1, Int.le_trans h2 hcov.2.2⟩⟩
+
+
+/-- production segments are `[start, end)`: the last instant is `end − 1`, so a trace ending exactly
+    `grace` before `end` reaches past it and is deferred. -/
+example : coverageOf { start := 1000, end_ := 2000, inclStart := true, inclEnd := false } = (1000, 1999, true) := by
+  decide
+
 /-! ## 4. sampler failures fail open -/
 
 /-- **Fail-open.** If every link of the chain failed (returned an error, panicked, blocked,
